@@ -76,8 +76,8 @@ func joTokens(txt []byte) (string, bool) {
 				out = append(out, "F")
 			}
 		case string:
-			if _, err := time.Parse(time.RFC3339Nano, v); err == nil {
-				out = append(out, "T")
+			if t, err := time.Parse(time.RFC3339Nano, v); err == nil {
+				out = append(out, fmt.Sprintf("T:%d:%d", t.Unix(), t.Nanosecond()))
 			} else {
 				out = append(out, "s:"+hexOf([]byte(v)))
 			}
@@ -145,6 +145,20 @@ func (g *gen) response(depth int, tags []rscp.Tag, unusual bool) rscp.Message {
 		}
 	}
 	return m
+}
+
+// responseOfType: a scalar (or empty-container) response of the given type with a value the model can print
+func (g *gen) responseOfType(t rscp.Tag, dt rscp.DataType) rscp.Message {
+	if dt == rscp.Container {
+		return rscp.Message{Tag: t, DataType: dt, Value: []rscp.Message{{Tag: 0x00800001, DataType: rscp.UChar8, Value: uint8(g.pick(200))}}}
+	}
+	for {
+		m := g.response(0, []rscp.Tag{t}, false)
+		if m.DataType == dt {
+			m.Tag = t
+			return m
+		}
+	}
 }
 
 func init() {
